@@ -18,17 +18,35 @@ import tempfile
 
 import vlib
 
-# harness-name prefix -> (generator, op, argument layout after the Frame probes)
+# harness-name prefix -> (op, layout). Layout tokens, in the order the harness draws them:
+#   gen:<kind>   the generator's draws      frame   Frame::snapshot (ti, bi)
+#   slen         any_str (n)                argp    probe_arg (i)
+#   a0 / a1      a usize argument           ch      a char (4 bytes)     skip  one draw
 OPS = [
-    ("reserve_heap", "heap", "reserve", ["a0"]), ("reserve_static", "static", "reserve", ["a0"]), ("reserve_inline", "inline", "reserve", ["a0"]),
-    ("shrink_to_heap", "heap", "shrink_to", ["a0"]), ("shrink_to_static", "static", "shrink_to", ["a0"]), ("shrink_to_inline", "inline", "shrink_to", ["a0"]),
-    ("ensure_modifiable_heap", "heap", "retain_none", []), ("ensure_modifiable_static", "static", "retain_none", []),
-    ("clone_heap", "heap", "clone", []), ("clone_static", "static", "clone", []), ("clone_inline", "inline", "clone", []),
-    ("truncate_heap", "heap", "truncate", ["a0"]), ("truncate_static", "static", "truncate", ["a0"]), ("truncate_inline", "inline", "truncate", ["a0"]),
-    ("pop_heap", "heap", "pop", []), ("pop_static", "static", "pop", []), ("pop_inline", "inline", "pop", []),
-    ("clear_heap", "heap", "clear", []),
-    ("replace_inner_heap", "heap", "drop", []), ("drop_heap", "heap", "drop", []),
-    ("push_str_heap", "heap", "push_str", ["slen"]), ("push_str_static", "static", "push_str", ["slen"]), ("push_str_inline", "inline", "push_str", ["slen"]),
+    ("reserve_heap", "reserve", ["gen:heap", "frame", "a0"]), ("reserve_static", "reserve", ["gen:static", "frame", "a0"]),
+    ("reserve_inline", "reserve", ["gen:inline", "frame", "a0"]),
+    ("shrink_to_heap", "shrink_to", ["gen:heap", "frame", "a0"]), ("shrink_to_static", "shrink_to", ["gen:static", "frame", "a0"]),
+    ("shrink_to_inline", "shrink_to", ["gen:inline", "frame", "a0"]),
+    ("ensure_modifiable_heap", "retain_none", ["gen:heap", "frame"]), ("ensure_modifiable_static", "retain_none", ["gen:static", "frame"]),
+    ("clone_heap", "clone", ["gen:heap", "frame"]), ("clone_static", "clone", ["gen:static", "frame"]), ("clone_inline", "clone", ["gen:inline", "frame"]),
+    ("truncate_heap", "truncate", ["gen:heap", "frame", "a0"]), ("truncate_static", "truncate", ["gen:static", "frame", "a0"]),
+    ("truncate_inline", "truncate", ["gen:inline", "frame", "a0"]),
+    ("pop_heap", "pop", ["gen:heap", "frame"]), ("pop_static", "pop", ["gen:static", "frame"]), ("pop_inline", "pop", ["gen:inline", "frame"]),
+    ("clear_heap", "clear", ["gen:heap", "frame"]),
+    ("replace_inner_heap", "drop", ["gen:heap", "frame"]), ("drop_heap", "drop", ["gen:heap", "frame"]),
+    ("push_str_heap", "push_str", ["gen:heap", "frame", "slen", "argp"]), ("push_str_static", "push_str", ["gen:static", "frame", "slen", "argp"]),
+    ("push_str_inline", "push_str", ["gen:inline", "frame", "slen", "argp"]),
+    ("push_str_mod_heap", "push_str", ["slen", "argp", "gen:heap_unique", "frame"]), ("push_str_mod_inline", "push_str", ["slen", "argp", "gen:inline", "frame"]),
+    ("e2e_push_str_inline", "push_str", ["gen:inline", "frame", "slen", "argp"]), ("e2e_push_str_static", "push_str", ["gen:static", "frame", "slen", "argp"]),
+    ("e2e_push_str_unique", "push_str", ["gen:heap_unique", "frame", "slen", "argp"]), ("e2e_push_str_shared", "push_str", ["gen:heap_shared", "frame", "slen", "argp"]),
+    ("e2e_insert_str_inline", "insert_str", ["gen:inline", "slen", "argp", "a0", "frame"]), ("e2e_insert_str_static", "insert_str", ["gen:static", "slen", "argp", "a0", "frame"]),
+    ("e2e_insert_str_unique", "insert_str", ["gen:heap_unique", "slen", "argp", "a0", "frame"]), ("e2e_insert_str_shared", "insert_str", ["gen:heap_shared", "slen", "argp", "a0", "frame"]),
+    ("insert_str_mod_inline", "insert_str", ["slen", "argp", "gen:inline", "a0", "frame"]),
+    ("e2e_remove_inline", "remove", ["gen:inline", "a0", "skip", "frame"]), ("e2e_remove_static", "remove", ["gen:static", "a0", "skip", "frame"]),
+    ("e2e_remove_unique", "remove", ["gen:heap_unique", "a0", "skip", "frame"]), ("e2e_remove_shared", "remove", ["gen:heap_shared", "a0", "skip", "frame"]),
+    ("remove_mod_inline", "remove", ["gen:inline", "a0", "skip", "frame"]),
+    ("remove_frame_heap_unique", "remove", ["gen:heap_unique", "a0", "skip", "frame"]), ("remove_frame_heap_shared", "remove", ["gen:heap_shared", "a0", "skip", "frame"]),
+    ("remove_frame_static", "remove", ["gen:static", "a0", "skip", "frame"]),
 ]
 
 
@@ -52,30 +70,44 @@ def le(v):
 
 def decode(hname, vals):
     base = hname.split("@")[0]
-    for pref, gen, op, argl in OPS:
+    for pref, op, layout in OPS:
         if base.startswith(pref):
             break
     else:
         return None
     it = iter(vals)
-    sc = {"op": op, "kind": gen, "harness": hname}
+    sc = {"op": op, "harness": hname}
     try:
-        if gen == "heap":
-            if "_unique" in base or "_shared" in base:
-                sc["cap"] = le(next(it)); sc["len"] = le(next(it))
-                sc["rc"] = 1 if "_unique" in base else le(next(it))
+        for tok in layout:
+            if tok.startswith("gen:"):
+                gen = tok[4:]
+                if gen == "heap":
+                    sc["kind"] = "heap"
+                    sc["cap"] = le(next(it)); sc["len"] = le(next(it))
+                    if "_unique" in base:
+                        sc["rc"] = 1
+                    else:
+                        sc["rc"] = le(next(it))
+                elif gen == "heap_unique":
+                    sc["kind"] = "heap"; sc["cap"] = le(next(it)); sc["len"] = le(next(it)); sc["rc"] = 1
+                elif gen == "heap_shared":
+                    sc["kind"] = "heap"; sc["cap"] = le(next(it)); sc["len"] = le(next(it)); sc["rc"] = le(next(it))
+                elif gen == "static":
+                    sc["kind"] = "static"; sc["obj"] = le(next(it)); sc["len"] = le(next(it))
+                else:
+                    sc["kind"] = "inline"
+                    b = next(it)
+                    lb = b[15]
+                    sc["len"] = lb - 0xC0 if lb >= 0xC0 else 16
+                    sc["inline_bytes"] = b
+            elif tok == "frame":
+                next(it); next(it)
+            elif tok in ("argp", "skip"):
+                next(it)
+            elif tok == "ch":
+                sc["ch"] = le(next(it))
             else:
-                sc["cap"] = le(next(it)); sc["len"] = le(next(it)); sc["rc"] = le(next(it))
-        elif gen == "static":
-            sc["obj"] = le(next(it)); sc["len"] = le(next(it))
-        else:
-            b = next(it)
-            lb = b[15]
-            sc["len"] = lb - 0xC0 if lb >= 0xC0 else 16
-            sc["inline_bytes"] = b
-        next(it); next(it)  # Frame probes ti, bi
-        for a in argl:
-            sc[a] = le(next(it))
+                sc[tok] = le(next(it))
     except StopIteration:
         return None
     if sc.get("rc", 1) > 3:
